@@ -1,12 +1,21 @@
 (* GENERATED on every run by translate/pystim2coq.py (hook of harness/C01.py, harness/C09.py) from
-   /repo/psiaudio/stim.py - do not edit.  Index bookkeeping of: envelope, GateFactory.__init__, GateFactory.next, GateFactory.n_samples_remaining, GateFactory.n_samples, GateFactory.is_complete, EnvelopeFactory.next, FixedWaveform.next, FixedWaveform.n_samples_remaining, FixedWaveform.n_samples, FixedWaveform.is_complete, SquareWaveFactory.next, _sam_envelope.
+   /repo/psiaudio/stim.py - do not edit.  Index bookkeeping of: envelope, GateFactory.__init__, GateFactory.next, GateFactory.n_samples_remaining, GateFactory.n_samples, GateFactory.is_complete, EnvelopeFactory.next, FixedWaveform.next, FixedWaveform.n_samples_remaining, FixedWaveform.n_samples, FixedWaveform.is_complete, SquareWaveFactory.next, _sam_envelope, repeat, RepeatFactory.reset, Transform.next, Transform.reset.
    nid = symbolic id of the node; i_env_lb / i_duration / i_rise_time / D / start_samples / duration_samples = the
    pinned float conversions; token = what the input factory hands out. *)
 From PV Require Import Common.PySlice Stim.Model.
 Open Scope Z_scope.
 
+(* 2-D NumPy primitives of repeat(), for in-range non-negative bounds with hi - lo = len v (otherwise NumPy raises):
+   np.zeros((r, c)); rows[r0:, lo:hi] = v (v broadcast over the rows); rows.ravel() *)
+Definition np_zeros2 {A} (z : A) (r c : Z) : list (list A) := zrepeat (zrepeat z c) r.
+Definition np_set_rows {A} (r0 lo hi : Z) (v : list A) (rows : list (list A)) : list (list A) :=
+  firstn (Z.to_nat r0) rows
+  ++ map (fun row => firstn (Z.to_nat lo) row ++ v ++ skipn (Z.to_nat hi) row) (skipn (Z.to_nat r0) rows).
+Definition np_ravel {A} (rows : list (list A)) : list A := concat rows.
+
 Record gate_st := { gate_start_samples : Z; gate_duration_samples : Z; gate_total_samples : Z; gate_offset : Z }.
 Record fixed_st := { fixed_waveform : list sample; fixed_offset : Z }.
+Record xform_st := { xform_offset : Z }.
 Record square_st := { square_nid : Z; square_cycle_samples : Z; square_on_samples : Z; square_offset : Z }.
 
 Definition gen_envelope_get_i (offset i_start : Z) : Z :=
@@ -126,4 +135,29 @@ Definition gen_sam_envelope (nid : Z) (D : Z) (offset : Z) (samples : Z) : list 
   let sam_envelope := (zrange (fun k => (4, nid, k)) sam_offset sam_n) in
   let delay_envelope := (zrepeat fone delay_n) in
   (delay_envelope ++ sam_envelope).
+
+Definition gen_repeat (s_period : Z) (s_delay : Z) (waveform : list sample) (n : Z) (skip_n : Z) : option (list sample) :=
+  let s_waveform := (zlen waveform) in
+  if (s_waveform >? (s_period - s_delay)) then None
+  else (let result := (np_zeros2 szero (n + skip_n) s_period) in
+    let result := (np_set_rows skip_n s_delay (s_delay + s_waveform) waveform result) in
+    Some (np_ravel result)).
+
+Definition gen_repeat_reset (s_period : Z) (s_delay : Z) (n : Z) (skip_n : Z) (self : fixed_st) (waveform : list sample) : option (fixed_st) :=
+  let self := {| fixed_waveform := fixed_waveform self; fixed_offset := 0 |} in
+  match (gen_repeat s_period s_delay waveform n skip_n) with
+  | None => None
+  | Some v_ =>
+  let self := {| fixed_waveform := v_; fixed_offset := fixed_offset self |} in
+  Some self
+  end.
+
+Definition gen_transform_next (self : xform_st) (samples : Z) (waveform : list sample) (transformed : list sample) : xform_st * list sample :=
+  let waveform := transformed in
+  let self := {| xform_offset := ((xform_offset self) + (zlen waveform)) |} in
+  (self, waveform).
+
+Definition gen_transform_reset (self : xform_st) : xform_st :=
+  let self := {| xform_offset := 0 |} in
+  self.
 
